@@ -10,7 +10,7 @@ lvs_validator(checker, app, anchor) on legacy NDNApps over the virtual loop with
 import logging
 from datetime import datetime, timedelta
 
-from harness.appkit import Session, new_app, enc, ndn_types   # noqa: F401 (use_repo on import)
+from harness.appkit import Session, new_app, enc   # (use_repo runs on import)
 from harness import tlc
 
 from Cryptodome.PublicKey import ECC, RSA
@@ -79,9 +79,18 @@ class KeyPool:
         return ks[i]
 
 
+_imported = {}
+
+
 def _signer(kt, kl_name, priv):
+    """signer of the library for key type kt; the (slow) import of the private key is done once per key"""
     cls = {'ec': Sha256WithEcdsaSigner, 'rsa': Sha256WithRsaSigner, 'ed': Ed25519Signer}[kt]
-    s = cls(kl_name if kl_name is not None else '/unused', priv)
+    k = (kt, bytes(priv))
+    if k not in _imported:
+        _imported[k] = cls('/unused', priv)
+    s = cls.__new__(cls)
+    s.__dict__.update(_imported[k].__dict__)
+    s.key_locator_name = kl_name if kl_name is not None else '/unused'
     if kl_name is None:
         orig = s.write_signature_info
 
